@@ -97,6 +97,8 @@ Definition agree_crash (c : c04_case) (kf : nat * files) : bool :=
   let '(k, fobs) := kf in
   let '(o, w) := run_model c (Some k) in
   files_agree (w_fs w) fobs (cands c) &&
+  (* up to the kill the model issued exactly the calls the implementation issued *)
+  trace_eqb (rev (w_trace w)) (firstn k (r_trace (k_run c))) &&
   (* killed exactly when the run has a k-th event *)
   Bool.eqb (match o with Crashed => true | _ => false end) (Nat.ltb k (length (r_trace (k_run c)))).
 
@@ -137,6 +139,16 @@ Definition dest_good (c : c04_case) (after : option content) : bool :=
   if k_raises c then dest_ok_aborted (olds c) after
   else dest_ok (olds c) (new_content (k_body c)) after.
 
+(* power loss evaluated directly on the implementation's own recorded calls: replay the first k of them on
+   the file-system model and look at what is on stable storage (scenarios without a second writer) *)
+Definition power_view (c : c04_case) (k : nat) : option content :=
+  content_power (fst (replay (k_umask c) (firstn k (r_trace (k_run c))) (init_fs c, FNone))) (c_dest (k_cfg c)).
+
+Definition power_ok (c : c04_case) : bool :=
+  negb (no_appear (k_sched c)) ||
+  forallb (fun k => dest_good c (power_view c k))
+          (length (r_trace (k_run c)) :: map fst (k_crashes c)).
+
 Definition holds (c : c04_case) : bool :=
   let new := new_content (k_body c) in
   let r := k_run c in
@@ -149,7 +161,8 @@ Definition holds (c : c04_case) : bool :=
    | ORaise _ => true
    end) &&
   calls_ok (c_dest (k_cfg c)) (map call_of (r_trace r))
-           (match r_outcome r with OOk => true | _ => false end).
+           (match r_outcome r with OOk => true | _ => false end) &&
+  power_ok c.
 
 Definition c04_verdict (c : c04_case) : verdict := (agree c, holds c, false).
 
